@@ -395,15 +395,17 @@ def _run_pipeline(desc):
             if all(len(fr[t][0]) == 0 for t in trip):
                 continue
             fn = os.path.join(wd, "s.h5")
+            # every fifth scan has strong peaks: pixel intensities of 7e8 .. 1e10 (sums of intensity x row beyond 2^31 and 2^32)
+            iscale = np.float32(2.0 ** 26) if idx % 5 == 0 else np.float32(1.0)
             with h5py.File(fn, "w") as h:
                 for name in ds.scans:
                     g = h.create_group(name)
                     g.attrs["nframes"] = 3; g.attrs["shape0"] = 4; g.attrs["shape1"] = 4
                     g["row"] = np.concatenate([fr[t][0] for t in trip]).astype(np.uint16)
                     g["col"] = np.concatenate([fr[t][1] for t in trip]).astype(np.uint16)
-                    g["intensity"] = np.concatenate([fr[t][2] for t in trip]).astype(np.float32)
+                    g["intensity"] = (np.concatenate([fr[t][2] for t in trip]).astype(np.float32) * iscale).astype(np.float32)
                     g["nnz"] = np.array([len(fr[t][0]) for t in trip], np.int32)
-            case = {"kind": "pipeline", "frames": list(trip)}
+            case = {"kind": "pipeline", "frames": list(trip), "intensity_scale": float(iscale)}
             with contextlib.redirect_stdout(io.StringIO()):
                 pk = P.pks_table_from_scan(fn, ds, 1)
                 got = pk.pk2dmerge(ds.omega, ds.dty)
@@ -446,7 +448,7 @@ def _run_pipeline(desc):
                              sum(ds.omega[1][peaks[k][5]] * peaks[k][1] for k in mem) / sI, 1.5))
             have = [(int(got["Number_of_pixels"][k]), int(round(got["sum_intensity"][k])), int(got["npk2d"][k]), float(got["s_raw"][k]), float(got["f_raw"][k]),
                      float(got["omega"][k]), float(got["dty"][k])) for k in range(len(got["spot3d_id"]))]
-            if len(have) != len(want) or any(np.abs(np.array(a) - np.array(b)).max() > 1e-9 for a, b in zip(sorted(have), sorted(want))):
+            if len(have) != len(want) or any(np.abs(np.array(a) - np.array(b)).max() > 1e-9 * max(1.0, abs(b[1])) for a, b in zip(sorted(have), sorted(want))):
                 sh.violation("pks_table_from_scan+pk2dmerge:merged-peaks-differ-from-components", case, {"got": sorted(have), "expected": sorted(want)})
             elif pk.pk_props.shape[1] != len(peaks) or int(pk.pk_props[0].sum()) != sum(p_[0] for p_ in peaks) or int(pk.pk_props[1].sum()) != sum(p_[1] for p_ in peaks):
                 sh.violation("props:2d-peak-table-does-not-conserve-pixels-or-intensity", case, {})
